@@ -12,10 +12,18 @@ export CARGO_TARGET_DIR=/tmp/cf/target-cache CARGO_NET_OFFLINE=true
 cd "$wt"
 git apply "$seed/patch.diff" || { echo "PATCH-DOES-NOT-APPLY"; exit 2; }
 if [ -f "$seed/demo_seed.rs" ]; then cp "$seed/demo_seed.rs" tests/demo_seed.rs; fi
-suite=$(timeout 900 cargo nextest run --workspace --no-fail-fast --offline --test-threads 8 -E 'not binary(demo_seed)' 2>&1 | grep -E "Summary|error(\[|:)" | tail -2 | tr '\n' ' ')
+filter="-E not\ binary(demo_seed)"; [ -f tests/demo_seed.rs ] || filter=""
+suite=$(eval timeout 900 cargo nextest run --workspace --no-fail-fast --offline --test-threads 8 $filter 2>&1 | grep -E "Summary|error(\[|:)" | tail -2 | tr '\n' ' ')
+if [ -f "$seed/demo/run.sh" ]; then
+  cp -r "$seed/demo" demo
+  with=$(cd "$wt" && (timeout 300 sh demo/run.sh >/tmp/cf/demo.out 2>&1; echo "exit=$?"; tail -2 /tmp/cf/demo.out | tr '\n' ' ') | sed 's/exit=0/passed exit=0/; s/exit=[1-9][0-9]*/failed &/')
+  git apply -R "$seed/patch.diff"
+  without=$(cd "$wt" && (timeout 300 sh demo/run.sh >/tmp/cf/demo.out 2>&1; echo "exit=$?"; tail -2 /tmp/cf/demo.out | tr '\n' ' ') | sed 's/exit=0/passed exit=0/; s/exit=[1-9][0-9]*/failed &/')
+else
 with=$(timeout 300 cargo nextest run --offline --test demo_seed --no-fail-fast 2>&1 | grep -E "Summary|error(\[|:)" | tail -2 | tr '\n' ' ')
 git apply -R "$seed/patch.diff"
 without=$(timeout 300 cargo nextest run --offline --test demo_seed --no-fail-fast 2>&1 | grep -E "Summary|error(\[|:)" | tail -2 | tr '\n' ' ')
+fi
 cd /verif
 git -C /repo worktree remove --force "$wt"
 python3 - "$seed" "$suite" "$with" "$without" <<'PY'
